@@ -55,6 +55,11 @@ def comp_value(rng, cls_at, width, other_width, kind):
         return conf(width + rng.randint(2, 9))
     if kind == "combined":
         return conf(width + other_width)
+    if kind == "longjunk":
+        # too long *and* carrying text that formatting / templating code treats specially
+        v = conf(width + rng.randint(1, 9))
+        p = rng.randint(0, len(v))
+        return v[:p] + rng.choice(["{}", "{0}", "{x}", "{", "}", "{0.real}", "%s", "%(a)s", "%", "\\1", "\\", "$x", "{{", "\x00"]) + v[p:]
     if kind == "lower":
         return conf(width).lower()
     if kind == "spaced":
@@ -73,7 +78,7 @@ def comp_value(rng, cls_at, width, other_width, kind):
     return conf(width)
 
 
-KINDS = ["exact", "exact", "exact", "short", "short", "empty", "plus1", "long", "combined", "lower", "spaced", "wrongclass", "junk"]
+KINDS = ["exact", "exact", "exact", "short", "short", "empty", "plus1", "long", "combined", "lower", "spaced", "wrongclass", "junk", "longjunk"]
 
 
 def field_classes(spec, pos, comp):
